@@ -15,7 +15,7 @@ for d in seeded/*/; do
   id=$(python3 -c "import json;print(json.load(open('$d/meta.json'))['breaks'])")
   if ! git -C /repo apply --check /verif/$d/patch.diff 2>/dev/null; then echo "| $n | $id | - | patch does not apply |" >> $OUT; continue; fi
   git -C /repo apply /verif/$d/patch.diff
-  out=$(./check $id 2>&1); rc=$?
+  out=$(VERIF_NO_SHRINK=1 ./check $id 2>&1); rc=$?
   git -C /repo checkout -- . ; git -C /repo clean -fdq -e target
   v=$(echo "$out" | grep "^VIOLATION" | head -1 | sed 's/replay=[^ ]*//' | cut -c1-80)
   echo "| $n | $id | $rc | ${v:-no violation reported} |" >> $OUT
